@@ -166,7 +166,8 @@ pub fn exercise(tools: &Tools, sub: &str, x: &[u8], rank: u64, case: &dyn Fn() -
 }
 
 fn bytes_case(x: &[u8], extra: Value) -> Value {
-    let mut c = json!({"bytes_hex": vlib::hex(x)});
+    // inputs of many megabytes are described by their generator parameters (in `extra`), length and digest
+    let mut c = if x.len() <= (1 << 20) { json!({"bytes_hex": vlib::hex(x)}) } else { json!({"bytes_len": x.len(), "bytes_sha256": crate::oracles::sha256_hex(x)}) };
     if let (Some(m), Some(e)) = (c.as_object_mut(), extra.as_object()) {
         for (k, v) in e {
             m.insert(k.clone(), v.clone());
@@ -440,6 +441,55 @@ fn cpio_sweep(tools: Arc<Tools>) -> Sweep {
         a
     }));
     archives.push(("garbage".into(), vec![0xff; 200]));
+    // large archives are generated when their case runs (every worker process builds this list at start-up)
+    type Gen = Arc<dyn Fn() -> Vec<u8> + Send + Sync>;
+    let mut lazy: Vec<(String, Gen)> = vec![];
+    // the "crc" flavour of the new ASCII format (magic 070702): checksum field right / zero / wrong, small and large sums
+    {
+        let f0 = files[0].clone();
+        let crc_archive = move |data: &[u8], check: u32| {
+            let mut e = vlib::refcpio::Newc::file(&f0.cpio_name(), f0.mode as u32, 1, data);
+            e.check = check;
+            let mut a = vec![];
+            vlib::refcpio::write_newc(&mut a, &e);
+            a[5] = b'2';
+            vlib::refcpio::write_trailer(&mut a);
+            a
+        };
+        let small = files[0].archive_data();
+        let sum = |d: &[u8]| d.iter().fold(0u32, |s, b| s.wrapping_add(*b as u32));
+        for (n, c) in [("right", sum(&small)), ("zero", 0), ("wrong", 0xffff_ffff)] {
+            archives.push((format!("crc entry, checksum {}", n), crc_archive(&small, c)));
+        }
+        // byte sums that pass 2^31 and 2^32 (the field is defined modulo 2^32)
+        for (n, len) in [("2^31", (1usize << 31) / 255 + 1), ("2^32", (1usize << 32) / 255 + 1)] {
+            let ca = crc_archive.clone();
+            lazy.push((format!("crc entry of {} bytes 0xFF (byte sum passes {}), checksum right", len, n), Arc::new(move || {
+                let big = vec![0xffu8; len];
+                let s = big.iter().fold(0u32, |s, b| s.wrapping_add(*b as u32));
+                ca(&big, s)
+            })));
+        }
+    }
+    // long runs: very many consecutive entries of one kind
+    for count in [3_000usize, 200_000] {
+        for (what, name) in [("entries that are not in the header", "."), ("copies of the first file's entry", ""), ("trailers", "TRAILER!!!")] {
+            let f0 = files[0].clone();
+            lazy.push((format!("{} consecutive {}", count, what), Arc::new(move || {
+                let mut a = vec![];
+                for _ in 0..count {
+                    let nm = if name.is_empty() { f0.cpio_name() } else { name.to_string() };
+                    let mut e = vlib::refcpio::Newc::file(&nm, if name == "." { 0o040755 } else { f0.mode as u32 }, 1, &[]);
+                    e.nlink = 1;
+                    vlib::refcpio::write_newc(&mut a, &e);
+                }
+                vlib::refcpio::write_trailer(&mut a);
+                a
+            })));
+        }
+    }
+    let n_eager = archives.len();
+    let n_arch = n_eager + lazy.len();
     archives.push(("name not terminated".into(), {
         let mut a = good.clone();
         let e = 110 + files[0].cpio_name().len();
@@ -454,12 +504,22 @@ fn cpio_sweep(tools: Arc<Tools>) -> Sweep {
     let long_variants = [false, true];
     // sizes the *header* declares for the first file (stripped entries take their length from the header)
     let size_overrides: [Option<u64>; 9] = [None, Some(0), Some(u32::MAX as u64), Some(1 << 32), Some((1 << 32) + 1), Some(1 << 63), Some(u64::MAX - 3), Some(u64::MAX - 1), Some(u64::MAX)];
-    let n = archives.len() as u64 * 2 * size_overrides.len() as u64;
-    let rule = format!("{} hostile cpio archives inside an otherwise valid uncompressed hand-encoded package (every truncation; each of the 13 header fields of the first entry and size/namesize of the second ∈ boundary / non-hex values, i.e. name length 0/1/4096/4097/2^32−1 and file sizes up to 2^32−1; stripped entries with index 0..n+1, 2^31−1, 2^32−2, 2^32−1 with and without alignment bytes; missing trailer; bad magic; unterminated / non-UTF-8 name) × header with 32-bit / 64-bit size tags × size declared by the header for the first file ∈ {{as archived, 0, 2^32−1, 2^32, 2^32+1, 2^63, 2^64−4, 2^64−2, 2^64−1}} (for the valid and the stripped archives)", archives.len());
+    let n = n_arch as u64 * 2 * size_overrides.len() as u64;
+    let rule = format!("{} hostile cpio archives inside an otherwise valid uncompressed hand-encoded package (every truncation; each of the 13 header fields of the first entry and size/namesize of the second ∈ boundary / non-hex values, i.e. name length 0/1/4096/4097/2^32−1 and file sizes up to 2^32−1; stripped entries with index 0..n+1, 2^31−1, 2^32−2, 2^32−1 with and without alignment bytes; missing trailer; bad magic; unterminated / non-UTF-8 name; crc-flavoured entries with right / zero / wrong checksum and byte sums passing 2^31 and 2^32; runs of 3 000 and 200 000 consecutive foreign entries / repeated entries / trailers) × header with 32-bit / 64-bit size tags × size declared by the header for the first file ∈ {{as archived, 0, 2^32−1, 2^32, 2^32+1, 2^63, 2^64−4, 2^64−2, 2^64−1}} (for the valid and the stripped archives)", n_arch);
     Sweep::new("hostile-cpio", rule, n, move |i, acc| {
         let so = size_overrides[(i % 9) as usize];
         let i2 = i / 9;
-        let (what, arch) = &archives[(i2 / 2) as usize];
+        let ai = (i2 / 2) as usize;
+        let generated;
+        let (what, arch): (&String, &Vec<u8>) = if ai < n_eager {
+            (&archives[ai].0, &archives[ai].1)
+        } else {
+            if so.is_some() {
+                return;
+            }
+            generated = (lazy[ai - n_eager].1)();
+            (&lazy[ai - n_eager].0, &generated)
+        };
         let long = long_variants[(i2 % 2) as usize];
         // size overrides only together with the few archives that can reach them (valid, stripped, truncated at the end)
         if so.is_some() && !(what == "valid" || what.starts_with("stripped") || what == "no trailer") {
